@@ -108,6 +108,38 @@ func firstLines(s string, n int) string {
 	return out
 }
 
+// restartMoving: graceful stop, chain movement while the process is down, and a
+// start during which the chain keeps moving (Instance.StartMoving).
+//
+//go:norace
+func restartMoving(w *World, inst *Instance, class string) bool {
+	t := w.Plan
+	w.runSteps(t.Int(4))
+	if !inst.StopSolo() {
+		w.Violate(class+".stop-hangs", "Stop did not return: %v", w.S.ParkedSummary())
+		return false
+	}
+	inst.Pending = nil
+	for k := t.Int(4); k > 0; k-- {
+		if t.Bool(70) {
+			w.MineOnTip(t, 70)
+		} else {
+			w.Fork(t, 1+t.Int(3), 1+t.Int(2), 50, 0)
+		}
+		w.Stat("op.env_while_down")
+	}
+	if err := inst.Open(); err != nil {
+		w.Violate(class+".restart-failed", "reopen: %v", err)
+		return false
+	}
+	if err := inst.StartMoving(t, 3); err != nil {
+		w.Violate(class+".restart-failed", "Start: %v | wallet errors: %q", err, w.RecentErrors(4))
+		return false
+	}
+	w.Stat("op.restart_moving")
+	return true
+}
+
 //go:norace
 func runC01(w *World, p map[string]int) {
 	t := w.Plan
@@ -130,7 +162,14 @@ func runC01(w *World, p map[string]int) {
 	nOps := 4 + t.Int(maxOps)
 	maxDepth := param(p, "maxdepth", 6)
 	for i := 0; i < nOps && len(w.Violations) == 0; i++ {
-		switch t.Weighted([]int{10, 3, 4, 1, 2, 2}) {
+		switch t.Weighted([]int{10, 3, 4, 1, 2, 2, param(p, "restartw", 2)}) {
+		case 6:
+			// the node is stopped (queued tips are lost with the process), the
+			// chain moves while it is down, and it starts again while blocks
+			// keep arriving: catch-up and queued announcements overlap
+			if !restartMoving(w, inst, "C01") {
+				break
+			}
 		case 0:
 			w.MineOnTip(t, 70)
 		case 1:
